@@ -237,7 +237,31 @@ def focus_c06(proj, rng, steps):
         steps.append(H.step_status(proj))
 
 
-FOCI = {"C05": focus_c05, "invalid": focus_invalid, "C15": focus_c15, "C16": focus_c16, "C17": focus_c17,
+def progress(proj, rng):
+    """the cluster makes some legal progress: a few pending jobs start / finish (ok or not)"""
+    st = proj.cluster.read()
+    for j in sorted(st["jobs"].values(), key=lambda j: j["order"]):
+        if j["state"] == "pending" and rng.random() < 0.5:
+            deps_ok = all(st["jobs"].get(d, {"state": "completed"})["state"] == "completed" for d in j["deps"])
+            if deps_ok:
+                j["state"] = rng.choice(["running", "completed", "failed"])
+        elif j["state"] == "running" and rng.random() < 0.5:
+            j["state"] = rng.choice(["completed", "failed"])
+    proj.cluster.write(st)
+
+
+def focus_c07(proj, rng, steps):
+    """several invocations: partial runs, cluster progress in between, prerequisites from earlier invocations"""
+    names = [t["name"] for t in proj.targets]
+    for _ in range(rng.randint(2, 4)):
+        pats = rand_patterns(rng, names, allow_nomatch=False) if rng.random() < 0.6 else []
+        steps.append(H.step_run(proj, pats))
+        progress(proj, rng)
+        if rng.random() < 0.3:
+            steps.append(H.step_status(proj))
+
+
+FOCI = {"C07": focus_c07, "C05": focus_c05, "invalid": focus_invalid, "C15": focus_c15, "C16": focus_c16, "C17": focus_c17,
         "C18": focus_c18, "C06": focus_c06}
 
 
@@ -259,6 +283,11 @@ def run_history(job):
     except Exception:  # noqa
         return {"seed": seed, "focus": focus + ":" + backend, "steps": steps, "info": None, "error": traceback.format_exc()[-1500:]}
     finally:
+        try:
+            if backend == "local":
+                proj.cluster.close()
+        except Exception:  # noqa
+            pass
         shutil.rmtree(root, ignore_errors=True)
 
 
